@@ -450,6 +450,73 @@ def check_reuse(space, t):
                 diffs.append(d)
         if diffs:
             break
+    if not diffs:
+        diffs += check_inplace(space, t, role)
+    return diffs
+
+
+# operations appended to / written into a nested expression after the object was already encoded once
+INPLACE_OPS = (("DW_OP_nop",), ("DW_OP_plus_uconst", 300))
+
+
+def check_inplace(space, t, role):
+    """An object that owns an expression list is encoded, the list is then changed IN PLACE (an operation appended, an
+    item replaced, an operand of a nested operation assigned) and the object is encoded again: the second encoding must
+    be that of the object as it is now."""
+    sp = SPACES[space]
+    forms = sp["forms"](t[0])
+    if "block" not in forms:
+        return []
+    diffs = []
+    bi = list(forms).index("block")
+    for bo, ptr in (CONFIGS[0], CONFIGS[-1]):
+        for mut in ("append", "replace-first", "assign-nested-operand"):
+            try:
+                obj = to_lib(space, t)
+                first = bytes(obj.encode(bo, ptr))
+            except Exception:  # noqa: B902
+                return diffs
+            lst = getattr(obj, dataclasses.fields(obj)[bi].name)
+            new_block = [tuple(o) for o in t[1 + bi]]
+            try:
+                if mut == "append":
+                    lst.append(to_lib("op", INPLACE_OPS[1]))
+                    new_block.append(INPLACE_OPS[1])
+                elif mut == "replace-first":
+                    if not lst:
+                        continue
+                    lst[0] = to_lib("op", INPLACE_OPS[0])
+                    new_block[0] = INPLACE_OPS[0]
+                else:
+                    k = next((i for i, o in enumerate(new_block) if len(o) > 1 and isinstance(o[1], int)), None)
+                    if k is None:
+                        continue
+                    f0 = dataclasses.fields(lst[k])[0].name
+                    nv = 1 if new_block[k][1] != 1 else 2
+                    setattr(lst[k], f0, nv)
+                    new_block[k] = (new_block[k][0], nv) + tuple(new_block[k][2:])
+            except Exception:  # noqa: B902
+                continue
+            t2 = t[: 1 + bi] + (new_block,) + t[2 + bi:]
+            try:
+                want = sp["encode"](t2, bo, ptr)
+            except Exception:  # noqa: B902 (the mutated vector is outside the reference's domain)
+                continue
+            r2 = dict(role, r_mutation=mut, r_cfg="%s/%d" % (bo, ptr))
+            try:
+                enc = bytes(obj.encode(bo, ptr))
+            except Exception as e:  # noqa: B902
+                diffs.append(D("reencode-after-inplace-change-raises", r_exc=exc_name(e), **r2))
+                continue
+            if enc != want:
+                diffs.append(D("reencode-after-inplace-change-stale" if enc == first else "reencode-after-inplace-change-differs", got=enc.hex(), want=want.hex(), **r2))
+            elif space == "cfa":
+                for d in check_directive(obj, want, bo, ptr, role):
+                    d["kind"] = "inplace-" + d["kind"]
+                    d.update(r_mutation=mut)
+                    diffs.append(d)
+        if diffs:
+            break
     return diffs
 
 
